@@ -197,6 +197,15 @@ def metal_pair(draw):
         tal = {}
         if draw(st.booleans()):
             tal["content"] = draw(expr({}))
+        if slots and "content" not in tal and draw(st.integers(0, 2)) == 0:
+            # a second use of the macro INSIDE this filling, with fillings of its own (possibly for a slot of the same name):
+            # a fill-slot belongs to the nearest enclosing use-macro
+            inner_fills = []
+            for s2 in draw(st.lists(st.sampled_from(slots + [sname]), min_size=1, max_size=2, unique=True)):
+                inner_fills.append({"t": "el", "tag": "b", "attrs": [["id", "inner-" + s2]], "tal": {}, "metal": {"fill-slot": s2},
+                                    "kids": [{"t": "text", "s": "inner fill " + s2}], "void": False})
+            fk = fk + [{"t": "el", "tag": "div", "attrs": [["id", "nested-user"]], "tal": {}, "metal": {"use-macro": "lib/macros/box"},
+                        "kids": inner_fills, "void": False}]
         fills.append({"t": "el", "tag": "p", "attrs": [["id", "fill-" + sname]], "tal": tal, "metal": {"fill-slot": sname}, "kids": fk, "void": False})
         fills.append({"t": "text", "s": "ignored text between fills"})
     use_expr = draw(st.sampled_from(["lib/macros/box", "lib/macros/box", "lib/macros/nosuch", "nothing", "lib/macros/nosuch | lib/macros/box"]))
